@@ -37,7 +37,7 @@ EXN = ["ValueError", "NotifierNotFound", "RuntimeError", "IndexError", "KeyError
 
 # field numbering shared with tools/props/c09.py and coq/C09/Model.v (F_ITEMS = 0, F_TA = 1)
 FNUM = {"value": 2, "f": 3, "g": 4, "kids": 5, "m": 6, "s": 7, "w": 8, "nonexist": 9, "value2": 10,
-        "items": 11, "trait_added": 1}
+        "items": 11, "trait_added": 1, "extra": 13}
 FNAME = {v: k for k, v in FNUM.items()}
 F_OBJ = 12
 CONT = {"kids": 5, "m": 6, "s": 7}
@@ -59,6 +59,25 @@ class N(HasTraits):
     def _decorated(self, event):
         pass
 
+    # a class-level trait_added handler that gives the trait `extra` its value as soon as it is added: it is
+    # registered at construction, so it runs BEFORE the trait_added maintainers of later registrations
+    @observe("trait_added")
+    def _populate(self, event):
+        if event.new == "extra" and getattr(self, "_pending", None) is not None:
+            self.extra = self._pending
+
+
+class E(N):
+    """value semantics for ==: two distinct E objects with the same tag compare equal (and hash alike);
+    registrations made through them must nevertheless stay independent (the target is compared by identity)"""
+    tag = Int()
+
+    def __eq__(self, other):
+        return isinstance(other, E) and self.tag == other.tag
+
+    def __hash__(self):
+        return hash(("E", self.tag))
+
 
 class P(HasTraits):
     value2 = Int()
@@ -67,8 +86,9 @@ class P(HasTraits):
     w = Any()
 
 
-CLASSES = {"N": N, "P": P}
+CLASSES = {"N": N, "P": P, "E": E}
 TRAITS = {"N": ["value", "value2", "f", "g", "kids", "m", "s", "w"], "P": ["value2", "f", "kids", "w"]}
+TRAITS["E"] = TRAITS["N"]
 
 
 def disp1(handler, event):
@@ -221,7 +241,7 @@ def run_case(case):
         for i, o in enumerate(pool):
             if o is None:
                 continue
-            for nm in TRAITS[case["objs"][i]["cls"]] + ["trait_added"]:
+            for nm in TRAITS[case["objs"][i]["cls"]] + ["trait_added", "extra"]:
                 t = o._trait(nm, 0)
                 lst = t._notifiers(False) if t is not None else None
                 if lst:
@@ -268,6 +288,15 @@ def run_case(case):
                 elif k == "Change":
                     counter[0] += 1
                     setattr(pool[op[1]], FNAME[op[2]], counter[0])
+                elif k == "AddTrait":
+                    # ["AddTrait", i, j or None]: the trait `extra` is added to object i; _populate assigns pool[j] to it
+                    o_ = pool[op[1]]
+                    o_._pending = None if op[2] is None else pool[op[2]]
+                    try:
+                        o_.add_trait("extra", Instance(HasTraits))
+                    finally:
+                        o_._pending = None
+                        o_ = None
                 elif k == "SetLink":
                     # ["SetLink", i, "f"|"g", j or None]
                     setattr(pool[op[1]], op[2], None if op[3] is None else pool[op[3]])
